@@ -70,9 +70,17 @@ func (c *tpCase) run() (v *hx.Violation) {
 					v = mk("history-dependent", "decoding the same TensorProto a second time gives another tensor: "+d)
 				}
 			}
-		case "initializer", "initializer-as-input":
+		case "initializer", "initializer-as-input", "initializer-unnamed":
 			tp.Name = "w"
 			g := &onnx.GraphProto{Name: "g", Initializer: []*onnx.TensorProto{tp}, Output: []*onnx.ValueInfoProto{hx.ValueInfoNoShape("w")}}
+			if c.Via == "initializer-unnamed" {
+				// an initializer without a name next to the named one: nothing can refer to it, it is still part of the
+				// file and decoded like every other (judged only where the payload must be refused)
+				un := proto.Clone(tp).(*onnx.TensorProto)
+				un.Name = ""
+				good := hx.TensorProto("w", ref.FromF(ref.F32, []int{1}, 1), "raw")
+				g.Initializer = []*onnx.TensorProto{un, good}
+			}
 			if c.Via == "initializer-as-input" {
 				// the initializer is also listed as a graph input (a default the caller may override): it is decoded,
 				// and refused when damaged, all the same
@@ -213,7 +221,11 @@ func checkC12(c *hx.Checker) {
 	var cases []tpCase
 	var tags [][]string
 	add := func(tp *onnx.TensorProto, expect string, exp *ref.T, desc string, tg ...string) {
-		for _, via := range []string{"direct", "initializer", "initializer-as-input", "constant"} {
+		vias := []string{"direct", "initializer", "initializer-as-input", "constant"}
+		if expect == "error" {
+			vias = append(vias, "initializer-unnamed")
+		}
+		for _, via := range vias {
 			cases = append(cases, tpCase{ReplayKind: "tensorproto", TP: tpB64(tp), Via: via, Expect: expect, Expected: hx.ToTJ(exp), Desc: desc + " via " + via})
 			tags = append(tags, append([]string{"via=" + via, "expect=" + expect}, tg...))
 		}
